@@ -11,6 +11,8 @@ optionally after a history of edits of the original, or alternating between both
 parentless object as a tree with object identities, every list the caller holds) and compared
 with the compiled model; the oracle (independent of the model) checks the laws of the property
 on the implementation's snapshots alone.
+
+Round 3: the edits also move objects from one side to the other (see `cross_move`, `move_law`).
 """
 import os
 import shutil
@@ -52,7 +54,17 @@ FREE_OPS = ("insert", "reorder", "set_card", "prop_extend", "prop_remove", "prop
             # in through the other entry points
             "inner_edit", "inner_edit", "hold_item", "held_set", "held_set", "merge_across", "merge_across",
             "set_link", "finalize", "ctor_from_list", "extend_from_list", "set_values_wrapped",
-            "value_alias")
+            "value_alias",
+            # round 3: objects that cross the boundary between the original and the copy (every
+            # entry point that re-parents an object), children grown in one twin, the twin of a
+            # child given to remove, the child lists edited through the list objects handed out
+            "cross_move", "cross_move", "cross_move", "grow", "grow", "remove_twin", "child_list_edit",
+            "values_across", "values_across")
+CROSS_HOWS = ("append", "append", "insert", "insert", "extend1", "extend_tuple", "extend_iter", "extend2",
+              "parent", "parent", "setitem", "extend_childlist")
+GROW_HOWS = ("new_append", "create", "ctor_parent", "new_insert", "new_parent")
+GROW_NAMES = ["g0", "g1", "g2", "g3", "extra", u"n\u00e9w", "a", "b"]
+POSITIONS = [0, 0, 1, 2, -1, -2, 3, 10, 11, -11, 100, -100]
 
 
 def enc_atom(v):
@@ -401,7 +413,13 @@ class Gen(object):
                     "pos": r.randrange(-3, 4), "seed": seed, "name": r.choice(NAMES),
                     "t": self.sel("tupprop"), "i": r.randrange(0, 3), "j": r.randrange(0, 3),
                     "s": r.choice(TOKENS), "l": r.randrange(1000), "y": self.sel("sec"),
-                    "wrap": r.random() < 0.8}
+                    "wrap": r.random() < 0.8,
+                    # round 3
+                    "how": r.randrange(1000), "tw": r.random() < 0.6, "push": r.random() < 0.3,
+                    "x2": self.sel("secprop"), "kind": r.choice(["sec", "prop"]),
+                    "family": r.choice(LIST_FAMILIES), "n": r.choice([0, 1, 2]),
+                    "gname": r.choice(GROW_NAMES), "at": r.choice(POSITIONS), "k": r.randrange(1000),
+                    "same": r.random() < 0.1}
         table = [
             (0.10, {"o": "get_values", "p": self.sel("prop")}),
             (0.07, {"o": "set_values_from", "p": self.sel("prop"), "l": r.randrange(1000)}),
@@ -430,6 +448,12 @@ class Gen(object):
             (0.03, {"o": "clone", "x": self.sel("any"), "children": r.random() < 0.7,
                     "keep": r.random() < 0.4, "style": r.choice(["kw", "pos"])}),
             (0.02, {"o": "export", "x": self.sel("secprop")}),
+            # round 3, in the vocabulary of the model (new_obj / append / remove with handles): an
+            # object of the other side is appended here (or one from here over there), a new child
+            # grows in a container that has a twin, the twin of a child is given to remove
+            (0.04, self.round3("cross_move", seed)),
+            (0.03, self.round3("grow", seed)),
+            (0.02, self.round3("remove_twin", seed)),
         ]
         tot = sum(w for w, _ in table)
         y = r.random() * tot
@@ -442,7 +466,7 @@ class Gen(object):
     def free_op(self, o):
         while True:
             op = self.edit(True)
-            if op["o"] in FREE_OPS:
+            if op["o"] in FREE_OPS and "m" not in op:
                 op["o"] = o
                 return op
 
@@ -455,6 +479,90 @@ class Gen(object):
             if case["side"] == "mixed":
                 op["sd"] = "orig"
             case["ops"].insert(self.r.randrange(0, len(case["ops"]) + 1), op)
+
+    def round3(self, o, seed):
+        """cross_move / grow / remove_twin in the form the model can follow."""
+        r = self.r
+        if o == "cross_move":
+            op = {"o": o, "m": True, "p": self.sel("cont"), "x": self.sel("secprop"),
+                  "tw": r.random() < 0.6, "push": r.random() < 0.3}
+            if r.random() < 0.1:
+                op["same"], op["tw"] = True, True
+            return op
+        if o == "grow":
+            return {"o": o, "m": True, "p": self.sel("cont"), "kind": r.choice(["sec", "prop"]),
+                    "gname": r.choice(GROW_NAMES), "family": r.choice(LIST_FAMILIES), "seed": seed,
+                    "n": r.choice([0, 1, 2]), "tw": r.random() < 0.6}
+        return {"o": o, "m": True, "p": self.sel("cont"), "k": r.randrange(1000)}
+
+    def directed(self, o, free):
+        """One edit of the given round 3 kind, in the modelled form unless the case is free."""
+        if free:
+            return self.free_op(o)
+        return self.round3(o, self.r.randrange(1 << 30))
+
+    def on_moved(self, free):
+        """An edit, copy or export of an object that has changed sides (if there is one)."""
+        r = self.r
+        while True:
+            op = self.edit(False)
+            if op["o"] in ("rename", "set_attr", "new_id", "clone", "export"):
+                op["x"] = self.sel("moved")
+                return op
+            if op["o"] in ("append", "remove") and r.random() < 0.5:
+                op["p"] = self.sel("moved")
+                return op
+            if free and r.random() < 0.1:
+                op = self.free_op(r.choice(["create_property", "create_section", "clean", "set_card"]))
+                op["p"] = self.sel("moved")
+                op["x"] = self.sel("moved")
+                return op
+
+    def twin_ops(self, free):
+        """Histories around the moment at which copy and original are still twins: right after the
+        copy (or after very few edits) a new child grows in one of them and is moved over to the
+        other one by one of the re-parenting entry points; then the moved object is edited, copied,
+        exported through its new side, both sides are edited at random, and it may go back."""
+        r = self.r
+        sides = ["copy", "orig"]
+        out = []
+        for _ in range(r.choice([0, 0, 0, 1, 2])):
+            op = self.edit(free)
+            op["sd"] = r.choice(sides)
+            out.append(op)
+        again = r.random() < 0.25
+        if again:
+            # a copy of the copy / a second copy of the original: twins on one side
+            out.append({"o": "clone", "x": self.sel("cont"), "children": r.random() < 0.8,
+                        "keep": r.random() < 0.4, "style": "kw", "sd": r.choice(sides)})
+        for _ in range(r.choice([1, 1, 2, 3])):
+            sa = r.choice(sides)
+            sb = "orig" if sa == "copy" else "copy"
+            if r.random() < 0.85:
+                g = self.directed("grow", free)
+                g["sd"], g["tw"] = sa, r.random() < 0.9
+                out.append(g)
+            if r.random() < 0.25:
+                op = self.edit(free)
+                op["sd"] = r.choice(sides)
+                out.append(op)
+            c = self.directed("cross_move", free)
+            c["tw"] = r.random() < 0.9
+            c["push"] = r.random() < 0.25
+            c["sd"] = sa if c["push"] else sb        # the destination is the side that did not grow
+            c["same"] = False
+            if again and r.random() < 0.5:
+                c["same"], c["sd"] = True, sa
+            out.append(c)
+            for _ in range(r.choice([1, 2, 3])):
+                op = self.on_moved(free) if r.random() < 0.6 else self.edit(free)
+                op["sd"] = sb if r.random() < 0.7 else sa
+                out.append(op)
+            if r.random() < 0.3:
+                t = self.directed("remove_twin", free)
+                t["sd"] = r.choice(sides)
+                out.append(t)
+        return out
 
     def ops(self, n, free, mixed=False, handler=False):
         out = [self.edit(free) for _ in range(n)]
@@ -483,19 +591,25 @@ class Exec(object):
         self.laws = []
         self.rng_cls = random.Random
         self.cur_side = None     # the side the running operation belongs to (recorded in the op)
-        self.handles = []        # (tuple item obtained by prop[i] and kept by the caller, side)
+        self.handles = []        # (tuple item obtained by prop[i] and kept by the caller, side, Property)
         self.handler = None      # TemplateHandler of the template stream, used again later on
         self.url = None
         self.loaded = None
+        self.twin = {}           # table index -> index of the object it was copied from / to
+        self.moved = []          # objects that have changed sides
 
     def pick(self, sel, side):
         w = self.w
         what = sel["sel"]
         kinds = {"sec": ("sec",), "prop": ("prop",), "cont": ("doc", "sec", "sec"), "any": ("doc", "sec", "prop"),
                  "secprop": ("sec", "prop"), "child": ("sec", "prop"), "tupprop": ("prop",),
-                 "doc": ("doc",)}[what]
+                 "doc": ("doc",), "moved": ("sec", "prop")}[what]
         cands = [i for i, o in enumerate(w.objs) if w.side_obj.get(i) == side and w.idx(o) == i
                  and kind_of(o) in kinds]
+        if what == "moved":
+            # objects that came over from the other side, most recent first, if there are any
+            mv = [i for i in reversed(self.moved) if i in cands]
+            cands = mv or cands
         if what == "tupprop":
             # Properties holding at least one tuple value, if there are any
             tups = [i for i in cands if (w.objs[i].dtype or "").endswith("-tuple") and len(w.objs[i]) > 0]
@@ -560,8 +674,28 @@ class Exec(object):
                 eq = [bool(ret == obj), bool(obj == ret), bool(ret != obj)]
             except Exception as exc:
                 eq = "raised " + fw.exc_name(exc)
+            self.pair(obj, ret, True)
             return {"ret": w.idx(ret), "src": x, "eq": eq}
         return self.do(rop, fn, reg)
+
+    def pair(self, a, b, deep):
+        """Remembers which object is the copy of which (position by position): the generator
+        uses it to find the counterpart of a container on the other side."""
+        w = self.w
+        try:
+            ia, ib = w.idx(a), w.idx(b)
+            if ia is None or ib is None or ia == ib or kind_of(a) != kind_of(b):
+                return
+            self.twin[ia], self.twin[ib] = ib, ia
+            kind = kind_of(a)
+            if deep and kind in ("doc", "sec"):
+                for sa, sb in zip(list(a.sections), list(b.sections)):
+                    self.pair(sa, sb, True)
+            if kind == "sec":
+                for pa, pb in zip(list(a.properties), list(b.properties)):
+                    self.pair(pa, pb, False)
+        except Exception:
+            pass
 
     def op_export(self, x, side):
         w = self.w
@@ -578,6 +712,12 @@ class Exec(object):
 
         def reg(ret):
             w.register_tree(ret, side)
+            node = ret
+            for h in chain:                     # the levels of the export and of the path
+                if node is None or h is None or kind_of(node) == "prop":
+                    break
+                self.pair(w.objs[h], node, False)
+                node = node.sections[0] if len(node.sections) else None
             return {"ret": w.idx(ret), "src": x, "chain": chain}
         return self.do(rop, obj.export_leaf, reg)
 
@@ -734,12 +874,12 @@ class Exec(object):
             return ret
         if o == "append":
             p, x = self.pick(op["p"], side), self.pick(op["x"], side)
-            if p is None or x is None:
-                return
+            if p is None or x is None or kind_of(w.objs[p]) == "prop":
+                return                          # ("moved" may select a Property: not a container)
             return self.do({"o": o, "p": p, "x": x}, lambda: w.objs[p].append(w.objs[x]))
         if o == "remove":
             p = self.pick(op["p"], side)
-            if p is None:
+            if p is None or kind_of(w.objs[p]) == "prop":
                 return
             cont = w.objs[p]
             kids = list(cont.sections) + (list(cont.properties) if kind_of(cont) == "sec" else [])
@@ -789,9 +929,203 @@ class Exec(object):
             if x is None:
                 return
             return self.do({"o": o, "x": x}, lambda: w.objs[x].new_id())
+        if o == "cross_move":
+            return self.cross_move(op, side)
+        if o == "grow":
+            return self.grow(op, side, r)
+        if o == "remove_twin":
+            return self.remove_twin(op, side)
         if o in FREE_OPS:
             return self.free_edit(op, side, r)
         raise ValueError(o)
+
+    # -- round 3: objects that cross the boundary between original and copy ---------
+    def containers(self, side):
+        w = self.w
+        return [i for i, o in enumerate(w.objs) if w.side_obj.get(i) == side and w.idx(o) == i
+                and kind_of(o) in ("doc", "sec")]
+
+    def twin_of(self, i, side):
+        """The counterpart of container i on the given side, if it is (still) a container there."""
+        t = self.twin.get(i)
+        if t is None or self.w.side_obj.get(t) != side or kind_of(self.w.objs[t]) not in ("doc", "sec"):
+            return None
+        return t
+
+    def subtree(self, obj, out=None, depth=0):
+        out = [] if out is None else out
+        out.append(self.w.idx(obj))
+        kind = kind_of(obj)
+        if depth < 60 and kind in ("doc", "sec"):
+            for s in list(obj.sections):
+                self.subtree(s, out, depth + 1)
+        if kind == "sec":
+            for p in list(obj.properties):
+                out.append(self.w.idx(p))
+        return out
+
+    def cross_move(self, op, side):
+        """An object of one side is given to a container of the other side by one of the entry
+        points that re-parent: append, insert, extend (list / tuple / iterator, one or two
+        objects), the parent setter, assignment to a position of the child list. `push`: the
+        container is on the other side, the object on this one."""
+        w = self.w
+        other = "orig" if side == "copy" else "copy"
+        dst_side, src_side = (other, side) if op.get("push") else (side, other)
+        if op.get("same"):
+            # between an object and a copy of it made on the same side (a copy of the copy, a
+            # second copy of the original): the copy that was cloned is the original of its clone
+            dst_side = src_side = side
+        pairs = []
+        if op.get("tw"):
+            # children of the counterpart that this container does not have (by name)
+            for pi in self.containers(dst_side):
+                ti = self.twin_of(pi, src_side)
+                if ti is None:
+                    continue
+                cont, tw = w.objs[pi], w.objs[ti]
+                have = [c.name for c in cont.sections]
+                pairs += [(pi, w.idx(c)) for c in tw.sections if c.name not in have]
+                if kind_of(cont) == "sec" and kind_of(tw) == "sec":
+                    have = [c.name for c in cont.properties]
+                    pairs += [(pi, w.idx(c)) for c in tw.properties if c.name not in have]
+            pairs = [(a, b) for a, b in pairs if b is not None]
+        if pairs:
+            p, x = pairs[op["x"]["n"] % len(pairs)]
+        elif op.get("same"):
+            return
+        else:
+            p, x = self.pick(op["p"], dst_side), self.pick(op["x"], src_side)
+        if p is None or x is None:
+            return
+        cont, obj = w.objs[p], w.objs[x]
+        how = "append" if op.get("m") else CROSS_HOWS[op["how"] % len(CROSS_HOWS)]
+        xs, objs2 = [x], [obj]
+        if how == "extend2":
+            x2 = self.pick(op["x2"], src_side if op["how"] % 2 else dst_side)
+            if x2 is not None and x2 != x and x2 != p:
+                xs.append(x2)
+                objs2.append(w.objs[x2])
+        if how == "extend_childlist":
+            # the child list of the other side itself is the argument (it shrinks while the
+            # objects are taken over): all siblings of the object
+            par = obj.parent
+            src_list = None if par is None else (par.properties if kind_of(obj) == "prop" else par.sections)
+            if src_list is not None:
+                objs2 = list(src_list)
+                xs = [w.idx(o2) for o2 in objs2]
+                if None in xs or p in xs:
+                    return
+        moved = []
+        for o2 in objs2:
+            moved += [h for h in self.subtree(o2) if h is not None]
+        if len(moved) > 400:
+            return
+        rop = {"o": "append" if how == "append" else "cross_move", "p": p, "x": x, "cross": True,
+               "xs": xs, "moved": sorted(set(moved)), "to": dst_side, "how": how, "replaced": None}
+        if how != "append":
+            rop["free"] = True
+        pos = op.get("at", 0)
+        if how == "setitem":
+            lst = cont.properties if kind_of(obj) == "prop" and kind_of(cont) == "sec" else cont.sections
+            if len(lst):
+                pos = pos % len(lst)
+                rop["replaced"] = w.idx(lst[pos])
+
+        def fn():
+            if how == "append":
+                cont.append(obj)
+            elif how == "insert":
+                cont.insert(pos, obj)
+            elif how in ("extend1", "extend2"):
+                cont.extend(list(objs2))
+            elif how == "extend_tuple":
+                cont.extend(tuple(objs2))
+            elif how == "extend_iter":
+                cont.extend(o2 for o2 in objs2)
+            elif how == "extend_childlist":
+                cont.extend(src_list if src_list is not None else [obj])
+            elif how == "parent":
+                obj.parent = cont
+            else:
+                lst[pos] = obj
+        ret = self.do(rop, fn)
+        if "ok" in self.steps[-1]["out"]:
+            for h in rop["moved"]:
+                w.side_obj[h] = dst_side
+            for h in xs:
+                if h in self.moved:
+                    self.moved.remove(h)
+                self.moved.append(h)
+        return ret
+
+    def grow(self, op, side, r):
+        """A new child (fresh name, mostly) in a container of this side, preferably one that has a
+        counterpart on the other side: made outside and appended (the form the model follows),
+        create_section / create_property, the constructor with parent=, insert, the parent setter."""
+        import odml
+        w = self.w
+        other = "orig" if side == "copy" else "copy"
+        conts = self.containers(side)
+        if op.get("tw"):
+            conts = [i for i in conts if self.twin_of(i, other) is not None] or conts
+        if not conts:
+            return
+        p = conts[op["p"]["n"] % len(conts)]
+        cont = w.objs[p]
+        kind = "sec" if kind_of(cont) == "doc" and op["n"] != 0 else op["kind"]
+        name = op["gname"]
+        how = "new_append" if op.get("m") else GROW_HOWS[op["how"] % len(GROW_HOWS)]
+        fam = op["family"]
+        trip = [py_and_lit(fam, r) for _ in range(op["n"])] if kind == "prop" else []
+        if how.startswith("new_"):
+            self.edit({"o": "new_obj", "kind": kind, "name": name, "family": fam, "seed": op.get("seed", 0),
+                       "n": op["n"]}, side)
+            if "ok" not in self.steps[-1]["out"]:
+                return
+            x = len(w.objs) - 1
+            obj = w.objs[x]
+            if how == "new_append":
+                return self.do({"o": "append", "p": p, "x": x}, lambda: cont.append(obj))
+            if how == "new_insert":
+                return self.do({"o": "grow", "free": True, "how": how}, lambda: cont.insert(op.get("at", 0), obj))
+
+            def fn():
+                obj.parent = cont
+            return self.do({"o": "grow", "free": True, "how": how}, fn)
+
+        def fn():
+            if how == "create":
+                if kind == "sec":
+                    return cont.create_section(name, "t")
+                return cont.create_property(name, values=[t[0] for t in trip], dtype=FAMILY_DTYPE[fam])
+            if kind == "sec":
+                return odml.Section(name=name, type="t", parent=cont)
+            return odml.Property(name=name, values=[t[0] for t in trip], dtype=FAMILY_DTYPE[fam], parent=cont)
+        ret = self.do({"o": "grow", "free": True, "how": how}, fn)
+        self.reregister(side)
+        return ret
+
+    def remove_twin(self, op, side):
+        """container.remove(obj) with the counterpart of one of its children: an object of the
+        other side that is equal to a child but is not the child."""
+        w = self.w
+        other = "orig" if side == "copy" else "copy"
+        cands = []
+        for pi in self.containers(side):
+            ti = self.twin_of(pi, other)
+            if ti is None:
+                continue
+            tw = w.objs[ti]
+            kids = list(tw.sections) + (list(tw.properties) if kind_of(tw) == "sec" else [])
+            cands += [(pi, w.idx(k)) for k in kids if w.idx(k) is not None]
+        if not cands:
+            return
+        p, x = cands[op["k"] % len(cands)]
+        rop = {"o": "remove", "p": p, "x": x}
+        if not op.get("m"):
+            rop["free"] = True
+        return self.do(rop, lambda: w.objs[p].remove(w.objs[x]))
 
     @staticmethod
     def wrap_ij(prop, op):
@@ -818,6 +1152,8 @@ class Exec(object):
             return                              # these copy whole subtrees: keep the case small
         if o in ("insert", "extend", "create_section", "create_property", "clean", "sec_merge") and p is None:
             return
+        if o in ("insert", "reorder") and op.get("how", 0) % 3 == 0:
+            op = dict(op, pos=op.get("at", op["pos"]))     # the tenth position, far beyond both ends
         if o == "insert" and x is not None:
             return self.do(rop, lambda: w.objs[p].insert(op["pos"], w.objs[x]))
         if o == "extend" and x is not None:
@@ -877,6 +1213,26 @@ class Exec(object):
             def fn():
                 w.objs[x].parent = None if p is None or op["pos"] < -1 else w.objs[p]
             return self.do(rop, fn)
+        if o == "child_list_edit" and p is not None:
+            # `sections` / `properties` hand out the child list itself: order changes and
+            # replacements through the list object are structural edits of this side
+            cont = w.objs[p]
+            how = op["how"] % 6
+            rop["how"] = how
+            lst = cont.properties if kind_of(cont) == "sec" and op["how"] % 2 else cont.sections
+
+            def fn():
+                if how in (0, 1):
+                    lst.sort()
+                elif how in (2, 3):
+                    lst.reverse()
+                elif how == 4:
+                    lst.sort(reverse=True)
+                else:
+                    new = odml.Section(name=op["gname"], type="t")
+                    w.register_tree(new, side)
+                    cont.sections[op["at"] % max(1, len(cont.sections))] = new
+            return self.do(rop, fn)
         # ---- round 2 -----------------------------------------------------------------------
         other_side = "orig" if side == "copy" else "copy"
         t = self.pick(op["t"], side) if "t" in op else None
@@ -919,10 +1275,11 @@ class Exec(object):
                 item = prop[i if op["pos"] >= 0 else -1]
                 if not isinstance(item, list):
                     raise TypeError("not a tuple item")
-                self.handles.append((item, side))
+                self.handles.append((item, side, t))
             return self.do(rop, fn)
         if o == "held_set":
-            mine = [h for h, sd in self.handles if sd == side]
+            # the item belongs to the side its Property is on now (it may have been moved over)
+            mine = [h for h, sd, pi in self.handles if w.side_obj.get(pi, sd) == side]
             if not mine:
                 return
             item = mine[op["l"] % len(mine)]
@@ -931,6 +1288,47 @@ class Exec(object):
             def fn():
                 item[j] = op["s"]
             return self.do(rop, fn)
+        if o == "values_across" and t is not None and "how" in op:
+            # the values of a Property of the other side are handed to a Property of this side:
+            # the stored items themselves (bracket access) as a list, as arguments of extend / the
+            # constructor, the Property itself as the argument of extend / merge. This side must
+            # get copies: the write to the last item that follows must not reach the other side.
+            dst = w.objs[t]
+            tw = self.twin.get(t)
+            cands = [i for i, ob in enumerate(w.objs) if w.side_obj.get(i) == other_side and w.idx(ob) == i
+                     and kind_of(ob) == "prop" and ob.dtype == dst.dtype and len(ob) > 0]
+            if not cands:
+                return
+            si = tw if tw in cands and op["how"] % 3 else cands[op["l"] % len(cands)]
+            src = w.objs[si]
+            how = op["how"] % 6
+            rop.update({"how": how, "src": si, "dst": t})
+
+            def fn():
+                if how == 0:
+                    dst.values = [src[k] for k in range(len(src))]
+                elif how == 1:
+                    dst.extend(src)
+                elif how == 2:
+                    dst.extend([src[k] for k in range(len(src))])
+                elif how == 3:
+                    dst.merge(src, strict=False)
+                elif how == 4:
+                    dst.values = src.values
+                else:
+                    return odml.Property(name=op["gname"], values=[src[k] for k in range(len(src))],
+                                         dtype=src.dtype)
+            made = self.do(rop, fn, (lambda ret: w.register_tree(ret, side)) if how == 5 else None)
+            tgt = made if how == 5 else dst
+            if tgt is None or "ok" not in self.steps[-1]["out"]:
+                return
+
+            def fn2():
+                item = tgt[-1]
+                if not isinstance(item, list):
+                    raise TypeError("not a tuple item")
+                item[op["j"] % len(item)] = op["s"]
+            return self.do({"o": "inner_edit", "free": True, "after": "values_across"}, fn2)
         if o == "merge_across" and "y" in op:
             # Section.merge copies what the destination does not have (clone) and extends
             # Properties it has (values): the source is on the other side and must stay as it is,
@@ -1282,7 +1680,14 @@ class C11(fw.Check):
             "sequences on the copy, on the original, or alternating between both, incl. writes to "
             "stored tuple items through the bracket access (prop[i][j] = s and its other spellings, "
             "items held across the copy), Section.merge from the other side, links, lists passed in "
-            "through every entry point; every parentless object and every caller-held list is "
+            "through every entry point; objects that cross the boundary between original and copy "
+            "(append / insert / extend with lists, tuples, iterators, two objects, the child list of "
+            "the other side itself / the parent setter / assignment to a position of the child list, "
+            "both directions, Sections and Properties, below Documents and Sections, also between a "
+            "copy and its own copy), directed histories in which a child grows in one of two still "
+            "equal twins and is moved to the other one and edited there, the twin of a child given "
+            "to remove, child lists edited through the list handed out, values taken from a "
+            "Property of the other side; every parentless object and every caller-held list is "
             "snapshotted after every operation. Non-trivial = the case has at least one edit that "
             "was carried out; distinct = distinct canonical JSON of the case.")
 
@@ -1325,6 +1730,27 @@ class C11(fw.Check):
                     cases.append(case)
             cases.append({"stream": "values", "doc": doc, "side": "orig", "first": {"o": "none"},
                           "ops": g.ops(rng.randrange(4, 16), False)})
+            # round 3: copy and original while they are still twins - a child grows in one of them
+            # and is moved over to the other one (every re-parenting entry point, both directions),
+            # then both sides are edited; the containers are the Document, Sections at any depth,
+            # copies without children, exports (the chain) and template copies
+            for _ in range(3 if tier == "quick" else 6):
+                free = rng.random() < 0.4
+                kind = rng.choice(["clone", "clone", "clone", "clone", "export", "template"])
+                if kind == "clone":
+                    first = {"o": "clone", "root": rng.choice([0, rng.randrange(n_nodes)]),
+                             "children": rng.random() < 0.8, "keep": rng.random() < 0.4,
+                             "style": rng.choice(["kw", "kw", "pos"])}
+                elif kind == "export":
+                    first = {"o": "export", "root": rng.randrange(n_nodes)}
+                else:
+                    first = {"o": "template", "root": rng.randrange(100), "children": rng.random() < 0.8,
+                             "keep": rng.random() < 0.5, "style": rng.choice(["kw", "pos"])}
+                case = {"stream": "free" if free else kind, "twins": True, "doc": doc, "side": "mixed",
+                        "first": first, "ops": g.twin_ops(free)}
+                if rng.random() < 0.2:
+                    case["pre"] = g.ops(rng.randrange(1, 4), free)
+                cases.append(case)
             if di % 4 == 0:
                 free = rng.random() < 0.25
                 side = rng.choice(["copy", "orig", "mixed"])
@@ -1449,8 +1875,16 @@ class C11(fw.Check):
                 got = csnap["lists"][cur["ret"]]
                 if src is not None and got != src["v"]:
                     out.append("%s: values returned %s, the Property holds %s" % (tag, got, src["v"]))
+            # ---- an object changes sides: exactly that happens, nothing is shared afterwards
+            if op.get("cross"):
+                out += self.move_law(tag, op, ok, psnap, csnap)
+                if ok:
+                    for h in op.get("moved", []):
+                        side_of[h] = op["to"]
             # ---- independence
             for key, root in psnap["roots"].items():
+                if op.get("cross"):
+                    break                         # both sides are operands: move_law says what may change
                 after = csnap["roots"].get(key)
                 root_side = side_of.get(int(key), "orig")
                 must_keep = (o in PRODUCERS or o in LIST_MUTATORS or root_side != op_side)
@@ -1477,6 +1911,71 @@ class C11(fw.Check):
     @staticmethod
     def refusal_expected(op, psnap):
         return False
+
+    @staticmethod
+    def forest(snap):
+        """handle -> (own fields, handles of the child Sections, of the Properties, handle of the
+        parent), and how often each handle occurs in the snapshot."""
+        info, count, deep = {}, {}, []
+
+        def walk(n, parent):
+            h = n["h"]
+            if n.get("too_deep"):
+                deep.append(h)
+            count[h] = count.get(h, 0) + 1
+            if h not in info:
+                info[h] = ({"k": n["k"], "n": n["n"], "a": n["a"], "v": n["v"], "id": n["id"], "m": n["m"]},
+                           [c["h"] for c in n["s"]], [c["h"] for c in n["p"]], parent)
+            for c in n["s"] + n["p"]:
+                walk(c, h)
+        for key in sorted(snap["roots"], key=int):
+            walk(snap["roots"][key], None)
+        return info, count, deep
+
+    def move_law(self, tag, op, ok, psnap, csnap):
+        """container.append(obj) / insert / extend / obj.parent = container / child_list[i] = obj
+        with an object of the other side. Copy and original are both operands, so both may change -
+        but only by the object changing its place: afterwards every object is held by exactly one
+        parent (an object left in the child list it came from would be shared by the original and
+        the copy: every later edit of it through one side changes the other), no object has
+        changed in itself, and every child list holds what it held, in the same order, apart from
+        the objects moved. If the call is refused the weaker reading applies: the objects named in
+        the call may be found at their old place, at the new one or without parent - never at two."""
+        out = []
+        pinfo, pcount, pdeep = self.forest(psnap)
+        cinfo, ccount, cdeep = self.forest(csnap)
+        if pdeep or cdeep:
+            return out
+        xs = [h for h in op.get("xs", []) if h is not None]
+        gone = set(xs)
+        if op.get("replaced") is not None:
+            gone.add(op["replaced"])
+        for h, n in ccount.items():
+            if h is not None and h >= 0 and n > 1 and pcount.get(h, 0) <= 1:
+                out.append("%s: object %s (%s %r) is now held by %d parents: it is shared between the "
+                           "trees it was moved between" % (tag, h, cinfo[h][0]["k"], cinfo[h][0]["n"], n))
+        for h, (fields, secs, props, _par) in pinfo.items():
+            if h is None or h < 0:
+                continue
+            if h not in cinfo:
+                out.append("%s: object %s (%s %r) is in no tree any more" % (tag, h, fields["k"], fields["n"]))
+                continue
+            cf, csecs, cprops, _cpar = cinfo[h]
+            if cf != fields:
+                out.append("%s: moving an object changed object %s itself: %s -> %s" % (tag, h, fields, cf))
+            if [c for c in csecs if c not in gone] != [c for c in secs if c not in gone] or \
+                    [c for c in cprops if c not in gone] != [c for c in props if c not in gone]:
+                out.append("%s: the children of object %s (%s %r) changed beyond the objects moved: "
+                           "%s %s -> %s %s" % (tag, h, fields["k"], fields["n"], secs, props, csecs, cprops))
+        if ok:
+            for x in xs:
+                if x in cinfo and cinfo[x][3] != op["p"]:
+                    out.append("%s: succeeded, but object %s is held by %s, not by the container %s"
+                               % (tag, x, cinfo[x][3], op["p"]))
+            r = op.get("replaced")
+            if r is not None and r not in xs and r in cinfo and cinfo[r][3] is not None:
+                out.append("%s: the replaced object %s is still held by %s" % (tag, r, cinfo[r][3]))
+        return out[:4]
 
     def copy_laws(self, tag, op, cur, psnap, csnap):
         out = []
@@ -1552,7 +2051,8 @@ class C11(fw.Check):
         if "steps" not in obs:
             return (case["stream"] + ":failed", False)
         done = sum(1 for s in obs["steps"][1:] if "ok" in s["out"])
-        return ("%s:%s:%s" % (case["stream"], case["first"]["o"], case.get("side")), done >= 2)
+        return ("%s%s:%s:%s" % (case["stream"], "+twins" if case.get("twins") else "", case["first"]["o"],
+                                case.get("side")), done >= 2)
 
     def finding_key(self, case, obs, failure):
         return None
